@@ -22,6 +22,8 @@ Oracle (from the statement)
   owner NOT selected         nothing at the TopProbe, nothing at the BottomProbe except an allowed mandatory
                              answer, and no exception.
   always                     no exception escapes.
+  assembly                   before anything else every configuration is assembled twice in one process: the layer
+                             set must be the 11 basic layers plus exactly the selected modules' layers, each once.
   scenarios (two steps)      TextMessage.out+KeyFetch / +GroupInfo (encryption layers): a send that first needs a
                              library-internal key fetch / group info request; the reply consumed by the send layer
                              is still forwarded upward by the receive layer and must be ignored by every protocol
@@ -654,6 +656,19 @@ def run(ctx):
     for m in self_test():
         ctx.violation("C06:harness:shape-unaccounted:%s" % m,
                       "shape %s is neither a kind of the routing table nor excluded with a reason" % m)
+    # the layer sets themselves: every configuration assembled repeatedly in one process must consist of the 11
+    # basic layers plus exactly the selected modules' layers ("nothing is duplicated", "a module that was left out")
+    bad, builds = P.assembly_preflight(passes=2)
+    if bad:
+        for what, cfgkey, n, detail in bad:
+            ctx.violation("C06:assembly:%s" % what,
+                          "protocol layer set of configuration %s (assembly no. %d in the process) differs from the "
+                          "model: %s %s" % (cfgkey, n, what, detail["problem"]), {"assembly": True}, detail)
+        ctx.note("layer sets are wrong: the kind table was not explored (every routing result would be derived noise)")
+        ctx.coverage.update({"evaluations": builds, "distinct_nontrivial": builds, "exhaustive": False,
+                             "rule": "stack assemblies compared with the model of the layer set (exploration aborted)",
+                             "distinct_outcomes": 2})
+        return
     names = [k.name for k in KINDS]
     nchunks = 4
     items = []
@@ -711,6 +726,10 @@ def run(ctx):
 def replay(ctx, case):
     """re-run the recorded (kind, optional parts, vector) in all 32 configurations, so that the configuration
     class of the signature is recomputed the same way as in run()"""
+    if case.get("assembly"):
+        bad, _ = P.assembly_preflight(passes=2)
+        return [("C06:assembly:%s" % what, "layer set of %s (assembly no. %d) differs from the model" % (k, n), case, d)
+                for what, k, n, d in bad]
     kind = KIND[case["kind"]]
     raw = []
     for cfg in P.CONFIGS:
